@@ -53,7 +53,7 @@ class Mod:
       self.tree = ast.parse(self.src, filename=path)
     except SyntaxError as e:
       raise AnalysisError('unparsable file %s: %s' % (rel, e))
-    astu.set_parents(self.tree)
+    self._import_nodes = astu.set_parents(self.tree)
     self.dotted = rel[:-3].replace('/', '.')
     if self.dotted.endswith('.__init__'):
       self.dotted = self.dotted[: -len('.__init__')]
@@ -96,7 +96,7 @@ class Mod:
 
   def _index_imports(self):
     pkg = self.dotted if self.rel.endswith('__init__.py') else self.dotted.rsplit('.', 1)[0]
-    for n in ast.walk(self.tree):
+    for n in sorted(self._import_nodes, key=lambda x: (x.lineno, x.col_offset)):
       if isinstance(n, ast.Import):
         for a in n.names:
           if a.asname:
@@ -154,6 +154,23 @@ class Mod:
     return None
 
 
+class _LazyDotted:
+  """dotted module name -> Mod, parsing on demand."""
+
+  def __init__(self, repo):
+    self.repo = repo
+
+  def __contains__(self, d):
+    return d in self.repo._dotted_to_rel
+
+  def get(self, d, default=None):
+    rel = self.repo._dotted_to_rel.get(d)
+    return self.repo._load(rel) if rel is not None else default
+
+  def __getitem__(self, d):
+    return self.repo._load(self.repo._dotted_to_rel[d])
+
+
 class Repo:
 
   def __init__(self, root='/repo', package='flax', overlay=None):
@@ -161,8 +178,10 @@ class Repo:
     overlay = overlay or {}
     self.root = os.path.abspath(root)
     self.package = package
-    self.mods: dict = {}
-    self.by_dotted: dict = {}
+    self._paths: dict = {}
+    self._overlay = overlay
+    self._mods: dict = {}
+    self._dotted_to_rel: dict = {}
     base = os.path.join(self.root, package)
     if not os.path.isdir(base):
       raise AnalysisError('no package directory %s' % base)
@@ -172,25 +191,63 @@ class Repo:
         if fn.endswith('.py'):
           p = os.path.join(dp, fn)
           rel = os.path.relpath(p, self.root)
-          m = Mod(self, rel, p, overlay.get(rel))
-          self.mods[rel] = m
-          self.by_dotted[m.dotted] = m
-    self.n_funcs = sum(len(m.funcs) for m in self.mods.values())
+          self._paths[rel] = p
+          d = rel[:-3].replace('/', '.')
+          if d.endswith('.__init__'):
+            d = d[: -len('.__init__')]
+          self._dotted_to_rel[d] = rel
+    self.by_dotted = _LazyDotted(self)
+
+  def _load(self, rel):
+    m = self._mods.get(rel)
+    if m is None:
+      m = Mod(self, rel, self._paths[rel], self._overlay.get(rel))
+      self._mods[rel] = m
+    return m
+
+  @property
+  def mods(self) -> dict:
+    """All modules (parses everything that has not been parsed yet)."""
+    for rel in self._paths:
+      self._load(rel)
+    return {rel: self._mods[rel] for rel in self._paths}
+
+  def mods_with(self, *needles) -> list:
+    """Modules whose source text contains any of the needles (cheap pre-filter for whole-repo scans)."""
+    out = []
+    for rel, path in self._paths.items():
+      if rel in self._mods or rel in self._overlay:
+        m = self._load(rel)
+        if any(n in m.src for n in needles):
+          out.append(m)
+        continue
+      with open(path, encoding='utf-8') as f:
+        txt = f.read()
+      if any(n in txt for n in needles):
+        out.append(self._load(rel))
+    return out
+
+  @property
+  def n_funcs(self):
+    return sum(len(m.funcs) for m in self._mods.values())
+
+  @property
+  def n_parsed(self):
+    return len(self._mods)
 
   def mod(self, rel) -> Mod:
-    m = self.mods.get(rel)
-    if m is None:
+    if rel not in self._paths:
       raise AnalysisError('anchor vanished: file %s' % rel)
-    return m
+    return self._load(rel)
 
   def func(self, rel, qual) -> Func:
     return self.mod(rel).func(qual)
 
   def digest(self, rels=None) -> str:
     h = hashlib.sha1()
-    for rel in sorted(rels or self.mods):
+    for rel in sorted(rels or self._mods):
       h.update(rel.encode())
-      h.update(self.mods[rel].digest.encode())
+      h.update(self._load(rel).digest.encode())
     return h.hexdigest()
 
   # -- symbol / call resolution --------------------------------------------
